@@ -4,7 +4,8 @@
   decode_desc_chunk, the codec's init, validate_sfinfo / validate_psf), and the small write session
   (caf_open for write, the write call's bookkeeping in sndfile.c, SFC_UPDATE_HEADER_NOW / AUTO, caf_close).
 
-  Not described (parse answers `unmodelled`): 'chan', 'info', 'pakt' chunks, ALAC, a non-integral sample rate,
+  Not described (parse answers `unmodelled`): the 'pakt' chunk, ALAC, what the 'chan' / 'info' chunks carry (they are walked, their
+  content belongs to the metadata model), a non-integral sample rate,
   anything after the 'data' chunk other than what ends the scan, skips that could leave the header cache.
 -/
 import SfModel.Basic
@@ -147,13 +148,10 @@ def walk (bs : List Byte) (ch : Nat) : Nat → Rd → Scan → Walk
   | 0, _, _ => .unmodelled
   | fuel+1, r, s =>
     let flen : Int := bs.length
-    let (mOpt, _, r) := rdN bs r 4
-    let (size, r) := rdBE bs r 8
-    match mOpt with
-    | none => .done s                                   -- marker == 0
-    | some m =>
+    match rdSeq bs [4, 8] r with                          -- "mE8": marker and size (zeros on a short read)
+    | ([m, sz], r) =>
     if m == [0, 0, 0, 0] then .done s else
-    let csize : Int := sext 64 size
+    let csize : Int := sext 64 (ofBE sz)
     if csize < 0 then .done s else
     if csize > flen then .done s else
     -- the tests every iteration ends with
@@ -167,7 +165,19 @@ def walk (bs : List Byte) (ch : Nat) : Nat → Rd → Scan → Walk
       if csize ≠ 4 + 12 * (ch : Int) then .err else
       let r := (rdBE bs r 4).2
       fin (rdPeaks bs ch r) s
-    else if m == mk "chan" ∨ m == mk "info" ∨ m == mk "pakt" then .unmodelled
+    else if m == mk "chan" then
+      -- caf_read_chanmap: "E444" then the rest of the chunk is skipped (the map itself does not reach SF_INFO)
+      if csize < 12 then skipChunk r else
+      if (r.indx : Int) + csize > cacheLimit then .unmodelled else
+      let r := (rdSeq bs [4, 4, 4] r).2
+      if r.failed then .unmodelled else fin (skip bs r (csize - 12)) s
+    else if m == mk "info" then
+      -- caf_read_strings: "E4b" reads the count and all the key/value bytes in one go; a chunk of exactly 4 bytes is not read at all
+      if csize < 4 then .err else
+      if csize > flen - (r.indx : Int) then .err else
+      if (r.indx : Int) + csize > cacheLimit then .unmodelled else
+      if csize > 4 then fin (rdSeq bs [4, (csize - 4).toNat] r).2 s else fin r s
+    else if m == mk "pakt" then .unmodelled
     else if m == mk "data" then
       let r := (rdBE bs r 4).2                            -- the edit count
       let hi : Int := r.indx
@@ -178,32 +188,19 @@ def walk (bs : List Byte) (ch : Nat) : Nat → Rd → Scan → Walk
       if (ftell bs r : Int) ≥ flen - 8 then .done { haveData := true, dataoffset := hi.toNat, datalength := dl, dataend := dend }
       else .unmodelled                                    -- the scan would go on behind the audio data
     else skipChunk r                                      -- 'free', 'kuki' and unknown chunks
+    | _ => .unmodelled
 
 /-- `initFrames`: the codec's init (pcm_init, ulaw_init, …) recomputes psf->datalength and sf.frames -/
 def initData (dataoffset : Nat) (dataend : Int) (flen : Nat) : Int :=
   if flen > dataoffset then (if dataend > 0 then dataend - dataoffset else (flen : Int) - dataoffset) else 0
 
-def parse (bs : List Byte) : ParseRes :=
-  if bs.length < 12 then .err else                        -- guess_file_type: short read, no extension to fall back on
-  if bs.take 4 != mk "caff" ∨ (bs.drop 8).take 4 != mk "desc" then .unmodelled else
-  let r : Rd := {}
-  let r := (rdRaw bs r 4).2                                -- 'caff'
-  let r := (rdBE bs r 2).2
-  let r := (rdBE bs r 2).2
-  let r := (rdRaw bs r 4).2                                -- 'desc'
-  let (size, r) := rdBE bs r 8
-  let (rate, r) := rdBE bs r 8
+/-- what follows the twelve fixed fields of the file header and the 'desc' chunk -/
+def parseDesc (bs : List Byte) (size rate : Nat) (fid : List Byte) (flags pkt fpp ch bits : Nat) (r : Rd) : ParseRes :=
   let csize : Int := sext 64 size
   if csize < 32 then .err else
   if !Float.f64.isFinite rate then .unmodelled else
   let sr : Int := (Float.f64.toDy rate).rint
   if sr < -0x80000000 ∨ sr > 0x7FFFFFFF then .unmodelled else
-  let (fid, r) := rdRaw bs r 4
-  let (flags, r) := rdBE bs r 4
-  let (pkt, r) := rdBE bs r 4
-  let (fpp, r) := rdBE bs r 4
-  let (ch, r) := rdBE bs r 4
-  let (bits, r) := rdBE bs r 4
   let d : Desc := { fmtId := fid, flags := flags, pktBytes := pkt, fpp := fpp, ch := ch, bits := bits }
   if ch > 1024 then .err else
   if csize - 32 > cacheLimit then .unmodelled else
@@ -223,6 +220,15 @@ def parse (bs : List Byte) : ParseRes :=
       if dl < 0 then .err else
       .ok { fmtWord := (if flags / 2 % 2 == 1 then 0x10000000 else 0) + 0x180000 + codec, ch := ch, sr := sr,
             frames := dl.toNat / (bytew * ch), dataoffset := s.dataoffset, datalength := dl.toNat }
+
+def parse (bs : List Byte) : ParseRes :=
+  if bs.length < 12 then .err else                        -- guess_file_type: short read, no extension to fall back on
+  if bs.take 4 != mk "caff" ∨ (bs.drop 8).take 4 != mk "desc" then .unmodelled else
+  -- "pmE2E2" 'caff' version flags, "mE8b" 'desc' size rate, "mE44444" the description
+  match rdSeq bs [4, 2, 2, 4, 8, 8, 4, 4, 4, 4, 4, 4] {} with
+  | ([_, _, _, _, size, rate, fid, flags, pkt, fpp, ch, bits], r) =>
+    parseDesc bs (ofBE size) (ofBE rate) fid (ofBE flags) (ofBE pkt) (ofBE fpp) (ofBE ch) (ofBE bits) r
+  | _ => .unmodelled
 
 /-! ## write session -/
 
